@@ -516,8 +516,10 @@ impl Xot {
 
         for ancestor in self.ancestors(node) {
             for (key, value) in self.namespaces(ancestor).iter() {
+                // a prefix redeclared closer to the node is shadowed here; it
+                // cannot be used, but another prefix may still be bound
                 if seen.contains(&key) {
-                    return None;
+                    continue;
                 }
                 seen.insert(key);
                 if *value == namespace {
@@ -527,7 +529,7 @@ impl Xot {
         }
         for (key, value) in self.base_prefixes() {
             if seen.contains(&key) {
-                return None;
+                continue;
             }
             seen.insert(key);
             if value == namespace {
